@@ -3,17 +3,24 @@
 // Contracts for connection accounting and shutdown (server.go, absnfs.go, operations.go): C17. Comment-only file.
 package absnfs
 
-// lock invariant of connMutex: the counter is the number of registered connections
-//@ specdef connInv(s *Server) bool = s != nil && s.activeConns != nil && s.connCount == len(s.activeConns) && s.connCount >= 0 && forall(c, net.Conn, has(s.activeConns, c) ==> allocated(s.activeConns[c]), s.activeConns[c])
+// lock invariant of connMutex: the counter is the number of registered connections, and the unregister-once
+// of a registered connection has not fired yet (so unregisterConnection really removes it)
+//@ specdef connInv(s *Server) bool = s != nil && s.activeConns != nil && s.connCount == len(s.activeConns) && s.connCount >= 0 && forall(c, net.Conn, has(s.activeConns, c) ==> allocated(s.activeConns[c]) && s.activeConns[c] != nil && !oncedone(s.activeConns[c].unregisterOnce), s.activeConns[c]) && forall(c1, net.Conn, forall(c2, net.Conn, has(s.activeConns, c1) && has(s.activeConns, c2) && c1 != c2 ==> s.activeConns[c1] != s.activeConns[c2], s.activeConns[c2]), s.activeConns[c1])
+
+// every registered connection is an object that already exists (so a connection just accepted is not among them)
+//@ specdef connKeys(s *Server) bool = forall(c, net.Conn, has(s.activeConns, c) ==> allocated(valof(c)), indom(s.activeConns, c))
 
 //@ func Server.registerConnection
 //@ prop C17
-//@ requires connInv(s) && !has(s.activeConns, conn) && (s.handler != nil ==> curTuning(s.handler) != nil) && s.connCount < 9223372036854775807
+//@ requires connInv(s) && !has(s.activeConns, conn) && (s.handler != nil ==> curTuning(s.handler) != nil)
+// A-COUNTER: the connection counter does not reach MaxInt64
+//@ free requires s.connCount < 9223372036854775807
 //@ modifies mapof(s.activeConns), s.connCount, clock, locks
 // admitted: counted exactly once, and the number served never exceeds MaxConnections (value at admission)
 //@ ensures [admitted] s.handler != nil && result ==> has(s.activeConns, conn) && s.connCount == old(s.connCount) + 1 && (curTuning(s.handler).MaxConnections > 0 ==> s.connCount <= curTuning(s.handler).MaxConnections)
 //@ ensures [refused-iff-full] s.handler != nil ==> (!result <==> curTuning(s.handler).MaxConnections > 0 && old(s.connCount) >= curTuning(s.handler).MaxConnections)
 //@ ensures [refused-unchanged] !result ==> mapsame(s.activeConns) && s.connCount == old(s.connCount)
+//@ ensures [only-conn-added] forall(c, net.Conn, c != conn && has(s.activeConns, c) ==> old(has(s.activeConns, c)), indom(s.activeConns, c))
 //@ ensures [others-kept] forall(c, net.Conn, c != conn ==> has(s.activeConns, c) == old(has(s.activeConns, c)) && s.activeConns[c] == old(s.activeConns[c]), s.activeConns[c])
 //@ ensures [inv] connInv(s)
 //@ ensures [unlocked] held(s.connMutex) == 0
@@ -35,6 +42,7 @@ package absnfs
 // uncounted at most once however often it is called; never counts below the number registered
 //@ ensures [inv] connInv(s) && s.activeConns == old(s.activeConns)
 //@ ensures [absent-noop] !old(has(s.activeConns, conn)) ==> mapsame(s.activeConns) && s.connCount == old(s.connCount)
+//@ ensures [removed] !has(s.activeConns, conn)
 //@ ensures [count-never-increases] s.connCount <= old(s.connCount) && s.connCount >= old(s.connCount) - 1
 //@ ensures [others-kept] forall(c, net.Conn, c != conn ==> has(s.activeConns, c) == old(has(s.activeConns, c)), s.activeConns[c])
 //@ ensures [unlocked] held(s.connMutex) == 0
@@ -77,3 +85,15 @@ package absnfs
 //@ ensures [attr-cache-empty] n.attrCache != nil ==> len(n.attrCache.cache) == 0
 //@ ensures [dir-cache-empty] n.dirCache != nil ==> len(n.dirCache.entries) == 0
 //@ ensures [repeatable] n.exportServer == nil && (n.fileMap != nil ==> fmShape(n.fileMap) && fmPaths(n.fileMap) && fmIds(n.fileMap) && fmRev(n.fileMap) && issuedInv(n.fileMap))
+
+// The accept loop: a connection it closes itself (address not allowed, or limit reached) is not counted,
+// and a connection that was counted is handed to a serving goroutine, which unregisters it at exit.
+//@ func Server.acceptLoop
+//@ prop C17
+//@ partial
+//@ requires s != nil && connInv(s) && connKeys(s) && (s.handler != nil ==> curTuning(s.handler) != nil)
+//@ loop 1 invariant s != nil && connInv(s)
+//@ loop 1 invariant connKeys(s)
+//@ loop 1 invariant s.handler != nil ==> curTuning(s.handler) != nil
+//@ callassert net.Conn.Close : [closed-means-not-counted] !has(s.activeConns, conn)
+//@ callassert Server.acceptLoop$1 : [served-means-counted] s.handler != nil ==> has(s.activeConns, conn)
